@@ -21,7 +21,7 @@ Open Scope Z_scope.
 Theorem C33_final_pos : forall g cmds,
   g_text g = false -> g_angle g = 0 -> angle_free cmds = true ->
   let r := draw g cmds in
-  let pl := plan cmds fresh (mkP (g_scale g) (g_attr g)) in
+  let pl := plan cmds fresh (mkP (g_scale g) (g_attr g) (g_nattr g)) in
   dr_status r = pl_status pl
   /\ current (dr_state r) = pen_after (current g) (pl_moves pl)
   /\ dr_segs r = segs_of (current g) (pl_moves pl)
@@ -32,7 +32,8 @@ Print Assumptions C33_final_pos.
 
 (* what the planned moves are: U D L R E F G H n and relative M contribute (scale * d) quot 4 per
    coordinate (truncation toward zero), absolute M its target; B clears `plot`, N sets `back`, both are
-   used up by the next move; S and C change scale / colour for what follows; X runs the substring with
+   used up by the next move; S and C change scale / colour for what follows (C n selects n brought into
+   the attribute range of the mode, as the other graphics statements do); X runs the substring with
    prefixes of its own *)
 Theorem C33_move_offsets : forall l fl ps,
   (forall d n, in_range (-99999, 99999) n = true ->
@@ -54,9 +55,10 @@ Theorem C33_move_offsets : forall l fl ps,
       pl_status (plan l fresh ps)))
   /\ plan (PreB :: l) fl ps = plan l (false, snd fl) ps
   /\ plan (PreN :: l) fl ps = plan l (fst fl, true) ps
-  /\ (forall n, in_range (1, 255) n = true -> plan (SetScale n :: l) fl ps = plan l fl (mkP n (p_attr ps)))
+  /\ (forall n, in_range (1, 255) n = true ->
+        plan (SetScale n :: l) fl ps = plan l fl (mkP n (p_attr ps) (p_nattr ps)))
   /\ (forall n, in_range (-99999, 99999) n = true ->
-        plan (SetColour n :: l) fl ps = plan l fl (mkP (p_scale ps) n))
+        plan (SetColour n :: l) fl ps = plan l fl (mkP (p_scale ps) (clamp_attr (p_nattr ps) n) (p_nattr ps)))
   /\ (forall name body, pl_status (plan body fresh ps) = Done ->
         plan (Sub name body :: l) fl ps =
         (pl_pst (plan l fl (pl_pst (plan body fresh ps))),
@@ -98,7 +100,7 @@ Print Assumptions C33_sum_of_offsets.
    colour in force; the position before move i is the pen after the first i moves *)
 Theorem C33_segments : forall g cmds,
   g_text g = false -> g_angle g = 0 -> angle_free cmds = true ->
-  let ms := pl_moves (plan cmds fresh (mkP (g_scale g) (g_attr g))) in
+  let ms := pl_moves (plan cmds fresh (mkP (g_scale g) (g_attr g) (g_nattr g))) in
   dr_segs (draw g cmds) =
     map (fun qm => mkseg (fst qm) (target (fst qm) (snd qm)) (m_attr (snd qm)))
         (filter (fun qm => m_plot (snd qm)) (combine (positions (current g) ms) ms))
@@ -112,6 +114,26 @@ Proof.
   exact (segs_of_positions ms (current g)).
 Qed.
 Print Assumptions C33_segments.
+
+(* the colour of every requested segment is an attribute of the mode (so the pixel write is in range) and
+   so is the colour left for later statements, whatever number C was given within +-99999 *)
+Theorem C33_colours : forall g cmds,
+  0 <= g_attr g < g_nattr g ->
+  0 <= g_attr (dr_state (draw g cmds)) < g_nattr g
+  /\ g_nattr (dr_state (draw g cmds)) = g_nattr g
+  /\ Forall (fun s => 0 <= s_attr s < g_nattr g) (dr_segs (draw g cmds)).
+Proof. exact draw_attr. Qed.
+Print Assumptions C33_colours.
+
+Theorem C33_colour_clamp : forall na n,
+  (1 <= na -> 0 <= clamp_attr na n < na) /\ (0 <= n < na -> clamp_attr na n = n)
+  /\ (1 <= na -> n < 0 -> clamp_attr na n = 0) /\ (1 <= na -> na <= n -> clamp_attr na n = na - 1).
+Proof.
+  intros na n. split; [exact (clamp_attr_range na n)|]. split; [exact (clamp_attr_id na n)|].
+  unfold clamp_attr. split; intros; apply Z.min_case_strong; apply Z.max_case_strong; intros;
+    auto with zarith.
+Qed.
+Print Assumptions C33_colour_clamp.
 
 (* ---- POINT(0), POINT(1), last point -------------------------------------------------------------- *)
 
@@ -183,7 +205,7 @@ Print Assumptions C33_scaling_exact.
    statement ends normally, pen = (86,50), POINT(0)/POINT(1) report it, the B move draws nothing, the N
    moves return *)
 Example C33_nonvacuous :
-  let g := mkG None (160, 100) false 4 0 3 false in
+  let g := mkG None (160, 100) false 4 0 3 false 4 in
   let e : env := [([83; 36], VStr [67; 50; 32; 110; 100; 51])] in
   let s := [83; 56; 32; 85; 49; 48; 32; 66; 82; 53; 32; 78; 69; 52; 32; 77; 43; 50; 44; 45; 51; 32;
             88; 83; 36; 59; 32; 77; 49; 48; 48; 44; 53; 48; 32; 76; 55] in
